@@ -286,7 +286,9 @@ let do_arc id (t : toks) =
     let all = [m11; m12; m21; m22; cx; cy] @ List.concat_map (fun (x, y) -> [x; y]) vs in
     let scale_log = List.fold_left (fun a d -> if fst d = 0 then a else max a (ilog2 d)) (-1000) all in
     (* ---- (a), (b) on a fine grid *)
-    let gc = scale_log - 34 in
+    (* fine enough for the smaller radius as well (a flat ellipse far from the origin) *)
+    let rmin_log = min (ilog2 rx) (ilog2 ry) in
+    let gc = max (min (scale_log - 34) (rmin_log - 28)) (scale_log - 56) in
     let f11 = zgrid gc m11 and f12 = zgrid gc m12 and f21 = zgrid gc m21 and f22 = zgrid gc m22 in
     let fcx = zgrid gc cx and fcy = zgrid gc cy in
     let det = zsub' (zmul f11 f22) (zmul f12 f21) in
